@@ -76,6 +76,20 @@ def Tree.WF [Bounded O] (t : Tree O) : Bool :=
   wfNode t.maxC t.height t.root && t.size == t.abs.length &&
     (t.root.leaf || !t.root.entries.isEmpty)
 
+/-! ### minimum fill -/
+
+/-- every node strictly below `n` (every NON-root node of a tree with root `n`) has at least `m`
+entries.  With `m = MinChildren` this is Guttman's minimum-fill condition, which this implementation
+does NOT maintain (under-full nodes are re-inserted as whole subtrees, see notes); with `m = 1` it is
+what does hold (`C11_fill_reachable`). -/
+def Node.belowFill (m : Nat) : Node O → Bool
+  | .mk _ _ es => es.attach.all fun ⟨e, he⟩ =>
+      match hm : e with
+      | .obj _ _ => true
+      | .child _ c => decide (m ≤ c.entries.length) && c.belowFill m
+termination_by n => sizeOf n
+decreasing_by subst hm; have := Entry.sizeOf_child_lt he; simp_wf; omega
+
 /-! ### history semantics -/
 
 /-- the multiset of stored objects after one operation -/
